@@ -53,6 +53,17 @@ def wrapS (bits : Nat) (i : Int) : Int :=
 
 def degenerate (x : FV) : Bool := isNaN x || isInf x || isZero x
 
+/-- Go `math.Mod(x, 4294967296)` for finite non-zero x: sign of x, exact (no rounding: the
+    remainder has no more significant bits than its operands); kept un-normalised. -/
+def mod2p32 : FV → FV
+  | .fin s m e =>
+    if e ≥ 0 then .fin s ((m * 2 ^ e.toNat) % 2 ^ 32) 0
+    else .fin s (m % (2 ^ 32 * 2 ^ (-e).toNat)) e
+  | x => x
+
+/-- toInt64Modulo32 (value_number.go): int64(math.Mod(value, 2^32)) -/
+def toInt64Modulo32 (x : FV) : Int := goInt64 (mod2p32 x)
+
 /-- toInt32 (value_number.go:208) -/
 def toInt32 (E : Env) (v : Val) : Int :=
   match v with
@@ -61,7 +72,7 @@ def toInt32 (E : Env) (v : Val) : Int :=
   | .int .i32 i => i
   | _ =>
     let f := toFloat E v
-    if degenerate f then 0 else wrapS 32 (goInt64 f)
+    if degenerate f then 0 else wrapS 32 (toInt64Modulo32 f)
 
 /-- toUint32 (value_number.go:228) -/
 def toUint32 (E : Env) (v : Val) : Int :=
@@ -73,7 +84,7 @@ def toUint32 (E : Env) (v : Val) : Int :=
   | .int .u32 i => i
   | _ =>
     let f := toFloat E v
-    if degenerate f then 0 else wrapU 32 (goInt64 f)
+    if degenerate f then 0 else wrapU 32 (toInt64Modulo32 f)
 
 /-- toUint16 (value_number.go:252) -/
 def toUint16 (E : Env) (v : Val) : Int :=
@@ -83,7 +94,7 @@ def toUint16 (E : Env) (v : Val) : Int :=
   | .int .u16 i => i
   | _ =>
     let f := toFloat E v
-    if degenerate f then 0 else wrapU 16 (goInt64 f)
+    if degenerate f then 0 else wrapU 16 (toInt64Modulo32 f)
 
 /-- toIntegerFloat (value_number.go:117) -/
 def toIntegerFloat (E : Env) (v : Val) : FV :=
